@@ -455,6 +455,45 @@ def break_xor_start_block_family() -> list[list]:
     return out
 
 
+def bunched_family() -> list[list]:
+    """Deterministic family of 'bunched' forks as in the corpus' constraints/bunched files but
+    wider (beyond F: a fork branch starts directly with another fork): outer/inner operator
+    pairs x 2-3 branches x inner fork in one or two branches x with/without an event behind
+    the inner fork.  AND forks with two OR children are left out: C06 itself states that
+    inference is not exact there."""
+    out = []
+    ops = ["and", "or", "xor"]
+    for outer in ops:
+        for inner in ops:
+            if inner == outer:
+                continue
+            for n_outer in (2, 3):
+                for n_inner in (2, 3):
+                    for inner_tail in (False, True):
+                        nm = _Names()
+                        pre = [nm()]
+                        ib = (inner, [[nm()] for _ in range(n_inner)])
+                        first = [ib] + ([nm()] if inner_tail else [])
+                        branches = [first] + [[nm()] for _ in range(n_outer - 1)]
+                        out.append(pre + [(outer, branches), nm()])
+                        if n_outer == 3 and not (outer == "and" and inner == "or"):
+                            nm = _Names()
+                            pre = [nm()]
+                            ib1 = (inner, [[nm()] for _ in range(2)])
+                            ib2 = (inner, [[nm()] for _ in range(2)])
+                            out.append(pre + [(outer, [[ib1], [nm()],
+                                                       [ib2] + ([nm()] if inner_tail else [])]),
+                                              nm()])
+    seen = set()
+    res = []
+    for ast in out:
+        k = repr(puml.normal_form(ast))
+        if k not in seen:
+            seen.add(k)
+            res.append(ast)
+    return res
+
+
 def random_same_end(rng: random.Random) -> list:
     for _ in range(2000):
         if rng.random() < 0.5:
